@@ -272,6 +272,8 @@ def tree_variants(line, rng, prop):
         # three-digit indices (above 255) and a 20-digit overflow in the last position
         # … and random 20/21-digit numbers above 2^64 (a hand-rolled overflow check is right on the round probes only)
         big = [str(rng.randint(2, 9)).encode() + bytes(rng.choice(b"0123456789") for _ in range(rng.choice([19, 19, 20]))) for _ in range(2)]
+        # … an overflowing digit run FOLLOWED by a non-digit (the reason is the character, not the overflow)
+        big += [big[0] + rng.choice([b"x", b" ", b"+", "\u0663".encode()]), b"18446744073709551616a"]
         for tok in [b"256", b"299", b"999", b"18446744073709551616"] + big:
             if rng.random() < 0.5 or tok in big:
                 q = list(parts); q[pi] = "x" + (pb[:pb.rfind(b"/")] + b"/" + tok if b"/" in pb else b"/" + tok).hex(); out.append(" ".join(q))
@@ -282,6 +284,14 @@ def tree_variants(line, rng, prop):
             out.append(" ".join(q))
             q = list(parts)
             q[di] = re.sub(r"#t(?=[,\]}]|$)", NZERO, q[di]); q[vi] = "[" + PZERO + "]" if rng.random() < 0.3 else PZERO
+            out.append(" ".join(q))
+        # a value that is the TEXT of the typed scalar it replaces (toml date-time vs the string that spells it)
+        if backend == "toml" and vi is not None and vi < len(parts) and "#t" in parts[di] and prop != "C09":
+            q = list(parts)
+            q[di] = re.sub(r"#t(?=[,\]}]|$)", DATE, q[di]); q[vi] = "#s" + b"1979-05-27T07:32:00Z".hex()
+            out.append(" ".join(q))
+            q = list(parts)
+            q[di] = re.sub(r"#t(?=[,\]}]|$)", DATE, q[di]); q[vi] = "#s" + b"2002-02-02".hex()
             out.append(" ".join(q))
         # unusual scalar kinds where a boolean stood (C09 keeps to the common domain: floats only)
         if "#t" in line:
@@ -399,6 +409,9 @@ def augment(prop, lines, seed, budget=40000, mined=None):
     tree = [l for l in lines if l.split(" ", 1)[0] in TREE_OPS or l.startswith("tree_hist ")]
     if tree:
         seen, out = set(lines), []
+        # stack use must not grow with the pointer: one pointer of 60 000 tokens against documents that exist only along it
+        for b in ("json", "toml"):
+            out.append(f"deep {b} 60000"); out.append(f"deep {b} {rng.choice([1, 2, 3, 17])}")
         for l in rng.sample(tree, min(len(tree), max(1, budget // 8))):
             if len(l) > 600: continue
             for v in tree_variants(l, rng, prop):
@@ -428,6 +441,11 @@ def augment(prop, lines, seed, budget=40000, mined=None):
             q[1] = _hex(b"".join(b"/" + t + b"a" * k for t in p0.split(b"/")[1:]))
             v = " ".join(q)
             if v not in seen: seen.add(v); out.append(v)
+    # … and two pointers sharing 100 000 leading tokens (prefix / suffix / intersection walk them together)
+    if any(l.startswith("rel ") for l in lines):
+        a = b"/a" * 100000
+        out.append(f"rel {_hex(a + b'/l')} {_hex(a + b'/r')}")
+        out.append(f"rel {_hex(a + b'/l')} {_hex(a)}")
     # recursion instead of iteration: a pointer of several hundred thousand empty tokens, sliced near its end
     if any(l.startswith("get ") for l in lines):
         n = 300000
